@@ -602,6 +602,18 @@ class EmissionMonitor(Monitor):
         self.amplification_checks = 0
         self.max_ratio_x100 = 0
         self.unvalidated_sends = 0
+        self.flight_room = {}  # endpoint -> congestion window - bytes in flight, read just before datagrams_to_send
+        self.batch_bytes = {}  # endpoint -> bytes emitted so far by the current datagrams_to_send call
+        self.soft = []  # violations that do not stop the run (the padding rule): reported once per signature
+
+    def soft_report(self, v):
+        if all(x.signature != v.signature for x in self.soft):
+            self.soft.append(v)
+
+    def before_send(self, ep, t):
+        loss = ep.conn._loss
+        self.flight_room[ep.name] = loss.congestion_window - loss.bytes_in_flight
+        self.batch_bytes[ep.name] = 0
 
     def on_deliver(self, ep, rec, from_addr, t, altered=False):
         key = (ep.name, from_addr)
@@ -625,6 +637,10 @@ class EmissionMonitor(Monitor):
         self.datagrams_checked += 1
         n = len(rec.data)
         mds = self.sim.opts.get("mds_" + ep.name, 1200)
+        if ep.name == "server" and not ep.handshake_complete and any(
+            v.ptype == "1rtt" and any(f["name"] == "STREAM" for f in v.frames) for v in rec.views or [] if not v.error
+        ):
+            self.server_sent_before_hs = getattr(self, "server_sent_before_hs", 0) + 1  # 0.5-RTT data
         if n > mds:
             raise Violation("emission:datagram-exceeds-max_datagram_size", "%s emitted a %d-byte datagram, max_datagram_size=%d" % (ep.name, n, mds), {"t": t, "views": [v.brief() for v in rec.views or []]})
         has_initial = any(v.ptype == "initial" for v in rec.views or [])
@@ -632,14 +648,20 @@ class EmissionMonitor(Monitor):
         if has_initial:
             self.initial_datagrams += 1
             if ep.name == "client" and n < 1200:
-                raise Violation("emission:client-initial-datagram-below-1200", "client datagram containing an Initial packet is %d bytes" % n, {"t": t, "views": [v.brief() for v in rec.views or []]})
+                # which budget was short when the datagram was built (hooked state, read before datagrams_to_send)
+                room = self.flight_room.get(ep.name)
+                why = "congestion-window-below-1200" if (room is not None and room - self.batch_bytes.get(ep.name, 0) < 1200) else "budget-sufficient"
+                self.soft_report(Violation("emission:client-initial-datagram-below-1200:" + why,
+                                           "client datagram containing an Initial packet is %d bytes (congestion window room before sending: %s, already emitted in this call: %d)" % (n, room, self.batch_bytes.get(ep.name, 0)),
+                                           {"t": t, "views": [v.brief() for v in rec.views or []]}))
             if ep.name == "server" and ae_initial and n < 1200:
                 key = (ep.name, rec.addr)
                 budget = 3 * self.received.get(key, 0) - self.sent.get(key, 0)
                 why = "amplification-budget-below-1200" if (key not in self.validated and budget < 1200) else "budget-sufficient"
-                raise Violation("emission:server-ack-eliciting-initial-datagram-below-1200:" + why,
-                                "server datagram containing an ack-eliciting Initial packet is %d bytes (anti-amplification budget left for that address before sending: %s)" % (n, budget if key not in self.validated else "validated"),
-                                {"t": t, "views": [v.brief() for v in rec.views or []]})
+                self.soft_report(Violation("emission:server-ack-eliciting-initial-datagram-below-1200:" + why,
+                                           "server datagram containing an ack-eliciting Initial packet is %d bytes (anti-amplification budget left for that address before sending: %s)" % (n, budget if key not in self.validated else "validated"),
+                                           {"t": t, "views": [v.brief() for v in rec.views or []]}))
+        self.batch_bytes[ep.name] = self.batch_bytes.get(ep.name, 0) + n
         for v in rec.views or []:
             for f in v.frames:
                 if f["name"] == "PATH_CHALLENGE":
@@ -658,6 +680,16 @@ class EmissionMonitor(Monitor):
 
 
 # ------------------------------------------------------------------ C09
+
+
+def ref_pto(conn):
+    """Probe timeout per RFC 9002 6.2.1 computed from the RTT estimator's fields (hooked state), *without* the
+    exponential backoff and without calling the library's own helper: smoothed_rtt + max(4*rttvar, 1 ms) + max_ack_delay,
+    or twice the initial RTT before the first sample."""
+    loss = conn._loss
+    if not loss._rtt_initialized:
+        return 2 * loss._rtt_initial
+    return loss._rtt_smoothed + max(4 * loss._rtt_variance, 0.001) + loss.max_ack_delay
 
 
 class CloseMonitor(Monitor):
@@ -687,11 +719,11 @@ class CloseMonitor(Monitor):
         authentic = [v for v in rec.views or [] if v.pn is not None and not v.error]
         if authentic:
             try:
-                self.last_rx[ep.name] = (t, ep.conn._loss.get_probe_timeout())
+                self.last_rx[ep.name] = (t, ref_pto(ep.conn))
             except Exception:
                 pass
         if ep.name not in self.t0 and ep.conn._state.name == "DRAINING":
-            self.t0[ep.name] = (t, ep.conn._loss.get_probe_timeout(), "draining")
+            self.t0[ep.name] = (t, ref_pto(ep.conn), "draining")
             self.close_kinds.add("peer-close")
 
     def on_datagram_out(self, ep, rec, t):
@@ -708,7 +740,7 @@ class CloseMonitor(Monitor):
         if has_close:
             if st is None:
                 try:
-                    pto0 = ep.conn._loss.get_probe_timeout()
+                    pto0 = ref_pto(ep.conn)
                 except Exception:
                     pto0 = 1.0
                 self.t0[ep.name] = (t, pto0, "closing")
